@@ -13,6 +13,8 @@ From PV Require Import Spec.CIntSpec Spec.CExprSpec.
 Import ListNotations.
 Open Scope Z_scope.
 
+Inductive slabel := LNone | LCase (z : Z) | LDefault.
+
 Inductive cstmt :=
   | SSkip
   | SExpr (e : cx)
@@ -25,13 +27,38 @@ Inductive cstmt :=
   | SFor (init : cstmt) (c : cx) (post : cx) (body : cstmt)   (* init: SSkip, SExpr or SDecl *)
   | SBreak
   | SContinue
-  | SReturn (e : cx).
+  | SReturn (e : cx)
+  (* switch (e) { items }: the body is a compound statement whose top-level statements carry at most one label
+     `case z:` (z = the value of the constant expression) or `default:` (6.8.4.2) *)
+  | SSwitch (e : cx) (items : list (slabel * cstmt)).
 
 Inductive sout := SNormal | SBrk | SCont | SRet (v : Z).
 
 (* after one execution of a loop body: leave the loop with this outcome, or go on *)
 Definition loop_exit (o : sout) : option sout :=
   match o with SBrk => Some SNormal | SRet v => Some (SRet v) | SNormal | SCont => None end.
+
+(* where a switch jumps to: the items from the first `case z` with [eqv z], else from `default`, else nothing *)
+Section Target.
+  Context {A : Type}.
+  Fixpoint find_case (eqv : Z -> bool) (l : list (slabel * A)) : option (list (slabel * A)) :=
+    match l with
+    | [] => None
+    | (LCase z, s) :: r => if eqv z then Some l else find_case eqv r
+    | _ :: r => find_case eqv r
+    end.
+  Fixpoint find_default (l : list (slabel * A)) : option (list (slabel * A)) :=
+    match l with
+    | [] => None
+    | (LDefault, s) :: r => Some l
+    | _ :: r => find_default r
+    end.
+  Definition switch_target (eqv : Z -> bool) (l : list (slabel * A)) : option (list (slabel * A)) :=
+    match find_case eqv l with Some r => Some r | None => find_default l end.
+End Target.
+
+(* a break leaves the switch; continue / return pass through *)
+Definition switch_exit (o : sout) : sout := match o with SBrk => SNormal | _ => o end.
 
 Section Exec.
   Variable dm : datamodel.
@@ -60,6 +87,17 @@ Section Exec.
                    end
                end
       end
+    end.
+
+  (* the items of a switch body from the jump target on: fall through until something else than normal *)
+  Fixpoint run_items (ex : store -> cstmt -> option (sout * store)) (l : list (slabel * cstmt)) (st : store)
+    : option (sout * store) :=
+    match l with
+    | [] => Some (SNormal, st)
+    | (_, s) :: r => match ex st s with
+                     | Some (SNormal, s1) => run_items ex r s1
+                     | x => x
+                     end
     end.
 
   Fixpoint exec (fuel : nat) (st : store) (s : cstmt) {struct fuel} : option (sout * store) :=
@@ -126,6 +164,20 @@ Section Exec.
       | SContinue => Some (SCont, st)
       | SReturn e =>
           match ceval dm te st e with Some (v, s1) => Some (SRet (convert dm rt v), s1) | None => None end
+      | SSwitch e items =>
+          match ceval dm te st e with
+          | None => None
+          | Some (v, s1) =>
+              let pt := promote dm (xtype_of dm te e) in       (* 6.8.4.2p5: promotions; labels converted to pt *)
+              let pv := convert dm pt v in
+              match switch_target (fun z => pv =? convert dm pt z) items with
+              | None => Some (SNormal, s1)
+              | Some rest => match run_items (exec f) rest s1 with
+                             | Some (o, s2) => Some (switch_exit o, s2)
+                             | None => None
+                             end
+              end
+          end
       end
     end.
 End Exec.
@@ -134,36 +186,44 @@ End Exec.
 Definition cx_vars (e : cx) : list nat := reads e ++ writes e.
 Definition all_in (l d : list nat) : bool := forallb (fun x => existsb (Nat.eqb x) d) l.
 (* [scoped d s] = Some d' : s uses only variables of d; d' = d plus the declarations of s visible after it *)
-Fixpoint scoped (inloop : bool) (d : list nat) (s : cstmt) : option (list nat) :=
+Fixpoint scoped (inbrk inloop : bool) (d : list nat) (s : cstmt) : option (list nat) :=
   match s with
   | SSkip => Some d
   | SExpr e => if all_in (cx_vars e) d then Some d else None
   | SDecl n e => if all_in (cx_vars e) d && negb (existsb (Nat.eqb n) d) then Some (n :: d) else None
-  | SSeq a b => match scoped inloop d a with Some d1 => scoped inloop d1 b | None => None end
-  | SIf1 c a => if all_in (cx_vars c) d then match scoped inloop d a with Some _ => Some d | None => None end else None
+  | SSeq a b => match scoped inbrk inloop d a with Some d1 => scoped inbrk inloop d1 b | None => None end
+  | SIf1 c a => if all_in (cx_vars c) d then match scoped inbrk inloop d a with Some _ => Some d | None => None end else None
   | SIf c a b =>
       if all_in (cx_vars c) d
-      then match scoped inloop d a, scoped inloop d b with Some _, Some _ => Some d | _, _ => None end
+      then match scoped inbrk inloop d a, scoped inbrk inloop d b with Some _, Some _ => Some d | _, _ => None end
       else None
   | SWhile c body =>
-      if all_in (cx_vars c) d then match scoped true d body with Some _ => Some d | None => None end else None
+      if all_in (cx_vars c) d then match scoped true true d body with Some _ => Some d | None => None end else None
   | SDoWhile body c =>
-      if all_in (cx_vars c) d then match scoped true d body with Some _ => Some d | None => None end else None
+      if all_in (cx_vars c) d then match scoped true true d body with Some _ => Some d | None => None end else None
   | SFor init c post body =>
-      match scoped inloop d init with
+      match scoped inbrk inloop d init with
       | Some d1 => if all_in (cx_vars c) d1 && all_in (cx_vars post) d1
-                   then match scoped true d1 body with Some _ => Some d | None => None end else None
+                   then match scoped true true d1 body with Some _ => Some d | None => None end else None
       | None => None
       end
-  | SBreak | SContinue => if inloop then Some d else None
+  | SBreak => if inbrk then Some d else None
+  | SContinue => if inloop then Some d else None
   | SReturn e => if all_in (cx_vars e) d then Some d else None
+  | SSwitch e items =>      (* no declaration is jumped over: items do not declare at their top level *)
+      if all_in (cx_vars e) d &&
+         forallb (fun it => match it with
+                            | (_, SDecl _ _) => false
+                            | (_, s) => match scoped true inloop d s with Some _ => true | None => false end
+                            end) items
+      then Some d else None
   end.
 
 (* the value returned by `rt f(params) { body }` called with [args]; the locals occupy the slots after the
    parameters (their initial content is never read by a scoped body) *)
 Definition run_fn (dm : datamodel) (te : tenv) (nparams : nat) (rt : ity) (fuel : nat) (args : list Z)
            (body : cstmt) : option Z :=
-  match scoped false (seq 0 nparams) body with
+  match scoped false false (seq 0 nparams) body with
   | None => None
   | Some _ =>
       match exec dm te rt fuel (args ++ repeat 0 (List.length te - nparams)) body with
